@@ -287,6 +287,17 @@ def handshake_waiter(ctx, fid, forward, inst, what, err_edge, exits_kind="ret+tr
            "%s: the %s is passed on at most once per failed park" % (fid, what) if not dbl else
            "%s: the %s can be passed on twice after one failed park (duplicated permit/hand-off)" % (fid, what), f.where(sorted(fw)[0]))
     ok &= not dbl
+    # H8: never park again on a blocker whose release request is pending: after set_release every
+    # path to a park passes SyncBlocker::current() (a fresh blocker)
+    fresh = an.sites(f, Call(re.escape(SB) + "::current", transitive=False), "must")
+    r8 = an.reach(f, [q for s in sr for q in an.after(f, s)], blocked=fresh)
+    again = [p for p in pk if p in r8]
+    ctx.ob(rule, fid, inst + "/H8-no-repark-with-pending-release", not again,
+           "%s: a waiter that registered a release request never parks again on that blocker" % fid if not again else
+           "%s: after set_release() the waiter can park again on the same blocker with the request still pending: the next unlocker wakes it AND "
+           "releases on its behalf (two owners / duplicated %s)" % (fid, what), f.where(sorted(sr)[0]),
+           detail=an.fmt_path(f, an.path(f, [q for s in sr for q in an.after(f, s)], again, blocked=fresh)) if again else None)
+    ok &= not again
     # H7: trigger_cancel_panic only after the handshake
     if tg:
         r0 = an.reach(f, [Point(0, 0)], blocked=iu)
